@@ -124,8 +124,8 @@ func (s *Session) sendOutbound(rw io.ReadWriter, outbound []*Proposal) (sent map
 
 		s.pLog.Printf(">%s", sp)
 		fmt.Fprintf(rw, "%s\r", sp)
-		for _, c := range sp {
-			checksum += int64(c)
+		for i := 0; i < len(sp); i++ {
+			checksum += int64(sp[i])
 		}
 		checksum += int64('\r')
 	}
@@ -217,8 +217,8 @@ Loop:
 
 		switch line[:2] {
 		case "FA", "FB", "FC", "FD": // Proposals
-			for _, c := range line {
-				ourChecksum += int64(c)
+			for i := 0; i < len(line); i++ {
+				ourChecksum += int64(line[i])
 			}
 			ourChecksum += int64('\r')
 
